@@ -26,5 +26,7 @@ def hooks_are_neutral(ck, tier, seed):
 def run(ck, tier, seed):
     hooks_are_neutral(ck, tier, seed)
     engine_common.run_engine(ck, tier, seed, pids=("C02",), with_passloop=True)
+    # the control step whose iteration bound PassLoop.tla establishes is the one the engine executes
+    engine_common.controller_trace(ck, tier, seed, vlib.tmpdir("C02ctl"), vlib.build_harness("san"), as_violation=False)
     ck.assumptions += ["bounded work is decided by the GRAPHITE2_VERIF iteration counter against maxRuleLoop x (slots + insert budget + 2), the formula TLC establishes on PassLoop.tla",
                        "memory safety / UB / leaks: ASan+UBSan+LSan on every executed case (sensors, DESIGN.md 1.4)"]
